@@ -108,7 +108,7 @@ theorem read_encBytes (pre post : List UInt8) (x : Option (List UInt8)) (hx : op
     simp only [h1, h2, Bool.false_eq_true, ↓reduceIte, Int.toNat_natCast]
     have hl2 : ¬ (pre ++ (toBESigned 4 ↑b.length ++ b) ++ post).length < pre.length + 4 + b.length := by
       simp; omega
-    simp only [hl2, ↓reduceIte]
+    simp only [hl2, ↓reduceIte, tick_reads]
     have hs2 : slice (pre ++ (toBESigned 4 ↑b.length ++ b) ++ post) (pre.length + 4) b.length = b := by
       have := slice_mid' (pre ++ toBESigned 4 (b.length : Int)) b post b.length rfl
       simpa [List.append_assoc] using this
@@ -246,7 +246,7 @@ theorem readIntString_partial (pre rest : List UInt8) (n : Nat) (hn : n < 214748
   have h2 : ¬ ((n : Int) < 0) := by omega
   simp only [h1, h2, Bool.false_eq_true, ↓reduceIte, Int.toNat_natCast]
   have hl2 : (pre ++ toBESigned 4 ↑n ++ rest).length < pre.length + 4 + n := by simp; omega
-  simp only [hl2, ↓reduceIte]
+  simp only [hl2, ↓reduceIte, tick_reads]
 
 /-- a strict, non-empty prefix of an entry: the header or the body read underflows -/
 theorem entryHeader_partial (pre M : List UInt8) (off : Int) (ho : int64 off = true)
@@ -263,7 +263,7 @@ theorem entryHeader_partial (pre M : List UInt8) (off : Int) (ho : int64 off = t
       simp only [fmtSize, fldSize, Nat.add_zero]
       have : (pre ++ (toBESigned 8 off ++ toBESigned 4 M.length ++ M).take j).length < pre.length + 8 := by
         simp [List.length_take]; omega
-      simp only [this, ↓reduceIte]
+      simp only [this, ↓reduceIte, tick_reads]
     rw [bind_err this]
   · have ht : (toBESigned 8 off ++ toBESigned 4 M.length ++ M).take j
         = toBESigned 8 off ++ (toBESigned 4 M.length ++ M).take (j - 8) := by
@@ -429,5 +429,29 @@ theorem decodeSet_truncOk (gz : Gz) (depth : Nat) (ms : List (Int × Msg)) (c : 
       simp [hk, this, hc0]
   · have : 0 < completeCount (ms.map entryLen) c := by omega
     simp [hk, this]
+
+theorem encodeSet_length (ms : List (Int × Msg)) : (encodeSet ms).length = (ms.map entryLen).sum := by
+  induction ms with
+  | nil => rfl
+  | cons om rest ih => simp [encodeSet, entryLen, ih]
+
+theorem completeCount_all (lens : List Nat) : completeCount lens lens.sum = lens.length := by
+  induction lens with
+  | nil => rfl
+  | cons l ls ih => simp [completeCount, ih]
+
+/-- an untruncated set of plain messages decodes to exactly those messages -/
+theorem decodeSet_roundtrip (gz : Gz) (depth : Nat) (ms : List (Int × Msg))
+    (hpl : ∀ om ∈ ms, plainEntry om = true) :
+    (decodeSet gz depth (encodeSet ms)).msgs = ms ∧ (decodeSet gz depth (encodeSet ms)).err = none := by
+  have h := decodeSet_truncate gz depth ms (encodeSet ms).length hpl (Nat.le_refl _)
+  rw [List.take_of_length_le (Nat.le_refl _)] at h
+  rw [encodeSet_length, completeCount_all] at h
+  simp only [List.length_map, List.take_length] at h
+  refine ⟨h.1, ?_⟩
+  rw [h.2]
+  cases ms with
+  | nil => simp
+  | cons om rest => simp
 
 end Afkak.C12
